@@ -47,6 +47,8 @@ def make_param(exe, st, pd, spec):
         o = exe.new_obj(name, ect, n=n)
         o.meta['ptrfields'] = spec.get('ptrfields', {})
         o.meta['len_spec'] = spec.get('len')
+        if spec.get('blob_buffer'):
+            o.meta['blob_buffer'] = True
         p = Ptr(o, (0,), (), to if not isinstance(to, TVoid) else ect)
         if spec.get('init') is not None:
             for k, v in enumerate(spec['init']):
@@ -77,6 +79,7 @@ def verify_function(tu, fn_name, contracts, int_mode='bv', num_mode='real', pref
     con = contracts.get(fn_name, {})
     exe = Exe(tu, int_mode, num_mode, contracts, prefix)
     exe.check_arith = check_arith
+    exe.sem.strict = bool(con.get('strict_unsigned'))
     exe.drop_dead_ptr_locals = bool(con.get('drop_dead_ptr_locals'))
     exe.ghost_tags = bool(con.get('ghost_tags'))
     import vlib.flow as _flow
@@ -126,6 +129,10 @@ def verify_function(tu, fn_name, contracts, int_mode='bv', num_mode='real', pref
     pre = st.fork()
     for cname, term in eval_clauses(exe, con.get('requires', {}), st, fn_name, pre=pre):
         st.assume(term)
+    # lemmas: consequences of the precondition, proved once here and then available everywhere in the body
+    for cname, term in eval_clauses(exe, con.get('lemmas', {}), st, fn_name, pre=pre):
+        exe.emit('%s/lemma/%s' % (fn_name, cname), term, st, kind='lemma')
+        st.assume(term)
     pre = st.fork()
     exe.pre_states = {fn_name: pre}
     res.pre = pre
@@ -142,6 +149,7 @@ def verify_function(tu, fn_name, contracts, int_mode='bv', num_mode='real', pref
     errs = [o.st for o in outs if o.kind == 'error'] + exe.errors
     rets = [o.st for o in outs if o.kind == 'return']
     res.n_return_paths, res.n_error_paths = len(rets), len(errs)
+    res.ret_states, res.err_states = rets, errs
     exe.fn_stack.append(fn_name)
     rt_s = fn['type']['qualType']
     rt = tu.ctype(rt_s[:rt_s.index('(')].strip())
